@@ -9,7 +9,8 @@
      built; a line that is served from the cache is single iff the cached text is: with "\n" AND "\r"
      excluded from the text fields this is an invariant of every history, with only "\n" excluded
      it is not (!)).  The cache entry lives inside CACHE_DIR whatever the session id; concurrent or
-     killed invocations never make a reader see a partial or mixed line. *)
+     killed invocations never make a reader see a partial or mixed line (!: session id "mcp", whose
+     entry and tmp name are also written by the MCP refresh pipeline - the SharedTmp variant below). *)
 From Coq Require Import ZArith.
 From DippyV Require Import Base.Str Gen.Tables Model.Statusline Proofs.SlPathP Proofs.SlMainP Proofs.SlAtomicP.
 
@@ -41,14 +42,27 @@ Theorem C20_tmp_not_entry : forall base pid sid p sid' p', digits pid ->
 Proof. exact tmp_not_entry. Qed.
 Print Assumptions C20_tmp_not_entry.
 
+(* one session id - "mcp" - is mapped onto MCP_CACHE_PATH, the file of the MCP server-list cache, and its
+   tmp.<pid> name onto the file the refresh pipeline spawned by the same process redirects into: for this id
+   the entry has a second, unsynchronised writer (confirmed on /repo: a mixture of both texts is served) ... *)
+Theorem C20_mcp_alias_refuted : forall base pid, exists sid,
+  get_cache_path base sid = Some (mcp_cache_path base) /\ tmp_of pid (mcp_cache_path base) = mcp_tmp base pid.
+Proof. exact (fun base pid => ex_intro _ (JStr MCP_SID) (mcp_alias base pid)). Qed.
+Print Assumptions C20_mcp_alias_refuted.
+(* ... and it is the only one *)
+Theorem C20_mcp_alias_only : forall base sid,
+  get_cache_path base sid = Some (mcp_cache_path base) -> sid = JStr $"mcp".
+Proof. exact mcp_alias_only. Qed.
+Print Assumptions C20_mcp_alias_only.
+
 (* ------------------------------------------------------------------ totality *)
 (* for every stdin value (None = json.load raised), every behaviour of every data source and of the
    file system: exit 0, non-empty stdout, no traceback - provided the input does not make
    get_context_from_transcript open file descriptor 1 (transcript_path = true or 1) *)
 Theorem C20_total_partial :
-  forall base pid o_repr o_configured o_branch o_changes o_transcript o_pct o_mcp_local o_mcp_cache o_age o_read o_fs inp,
+  forall base pid sesc o_repr o_configured o_branch o_changes o_transcript o_pct o_mcp_local o_mcp_cache o_age o_read o_fs inp,
   stdout_hazard inp = false ->
-  let o := sl_main base pid o_repr o_configured o_branch o_changes o_transcript o_pct o_mcp_local o_mcp_cache
+  let o := sl_main base pid sesc o_repr o_configured o_branch o_changes o_transcript o_pct o_mcp_local o_mcp_cache
                o_age o_read o_fs true inp in
   exit_ok o = true /\ out o <> [] /\ traceback o = false.
 Proof. exact total_partial. Qed.
@@ -57,9 +71,9 @@ Print Assumptions C20_total_partial.
 (* ... and then stdout is the cached text, the freshly built line (which is what set_cache was
    given), or "?", followed by one "\n" *)
 Theorem C20_total_shape :
-  forall base pid o_repr o_configured o_branch o_changes o_transcript o_pct o_mcp_local o_mcp_cache o_age o_read o_fs inp,
+  forall base pid sesc o_repr o_configured o_branch o_changes o_transcript o_pct o_mcp_local o_mcp_cache o_age o_read o_fs inp,
   stdout_hazard inp = false ->
-  let o := sl_main base pid o_repr o_configured o_branch o_changes o_transcript o_pct o_mcp_local o_mcp_cache
+  let o := sl_main base pid sesc o_repr o_configured o_branch o_changes o_transcript o_pct o_mcp_local o_mcp_cache
                o_age o_read o_fs true inp in
   (exists c, get_cached base o_age o_read (session_of (data_of inp)) = Some c /\ c <> [] /\ out o = c ++ NL /\
              served o = true /\ store o = SNothing) \/
@@ -123,7 +137,7 @@ Print Assumptions C20_template_no_breaks.
    every character of line - if P also holds of the text read from the cache file; and whatever
    is stored in the cache satisfies P again *)
 Theorem C20_oneline_run :
-  forall base pid o_repr o_configured o_branch o_changes o_transcript o_pct o_mcp_local o_mcp_cache o_age o_read o_fs
+  forall base pid sesc o_repr o_configured o_branch o_changes o_transcript o_pct o_mcp_local o_mcp_cache o_age o_read o_fs
          (P : N -> Prop),
   Forall P TEMPLATE -> forall data,
   Forall P (py_str o_repr (field_model data)) ->
@@ -135,7 +149,7 @@ Theorem C20_oneline_run :
   (forall a c, o_mcp_cache = Ok (a, c) -> Forall P c) ->
   (forall p s, o_read p = Ok s -> Forall P s) ->
   forall inp, data = data_of inp ->
-  let o := sl_main base pid o_repr o_configured o_branch o_changes o_transcript o_pct o_mcp_local o_mcp_cache
+  let o := sl_main base pid sesc o_repr o_configured o_branch o_changes o_transcript o_pct o_mcp_local o_mcp_cache
                o_age o_read o_fs true inp in
   line_ok P o /\ store_ok P (store o).
 Proof. exact run_chars. Qed.
